@@ -70,4 +70,14 @@ def main():
                                % (3 if tier == "thorough" else 2)}))
 
 
-main()
+try:
+    main()
+except Exception as e:       # the REAL pipeline raised on one of the small training sets / queries: that is a finding, not a crash of the check
+    import traceback
+    tb = traceback.extract_tb(e.__traceback__)
+    inside = [f for f in tb if "/ctparse/" in f.filename]
+    if not inside:
+        raise
+    print(json.dumps({"cases": 0, "distinct": 0, "bound": "aborted at the first exception raised inside the library",
+                      "bad": [{"what": "the real pipeline raises on a small training set / query", "exception": repr(e),
+                               "where": "%s:%d %s" % (inside[-1].filename.split("/ctparse/")[-1], inside[-1].lineno, inside[-1].name)}]}))
